@@ -4,6 +4,7 @@ small = dict(EOAs="E2", Contracts="K2", InitBal="BalSmall22", InitWq="Wq22", Ini
   LockVal="= 2", LowGas="= 1", GasUnit="= 1", MaxGasSteps="= 3", Prices="P12", IntrinsicGas="= 2", TxGas="= 2", Rent="= 1", MinConv="= 2",
   TxValues="V01", CallValues="V01", Regimes="RBG", Prefills="PF0", TxKinds="TKAll", OpKinds="OKNone",
   DestClasses="DAll", AmtClasses="AAll", GlClasses="GAll", FeeClasses="FAll", AlClasses="ALAll",
+  FrameKinds="FKOld", CallTargets="AnyAcct", TxTargets="AnyAcct", Benefs="AnyAcct", WpOps="WPNone",
   MaxDepth="= 2", MaxFrameOps="= 1", MaxTx="= 1", UsedMode='= "all"', GrindFail="= TRUE")
 real = dict(small, InitBal="BalReal22", InitWq="WqReal22", LockVal="= 1000000", LowGas="= 20000", GasUnit="= 700000", MaxGasSteps="= 2",
   Prices="P1", IntrinsicGas="= 21000", TxGas="= 21000", Rent="= 24914", MinConv="= 2000000", TxValues="RV01", CallValues="RV01",
@@ -45,3 +46,24 @@ cfg("MCEvmValue_emit_f5.cfg", real, dict(one1r, TxKinds="TKCreate", TxValues="RV
 cfg("MCEvmValue_emit_multi.cfg", real, dict(one1r, TxKinds="TKMulti", TxValues="RV03", CallValues="RV0",
                                             Regimes="RG", OpKinds="OKEtx", DestClasses="DSome2", AmtClasses="AMin", GlClasses="GOk", FeeClasses="FOne", AlClasses="ALSome",
                                             MaxDepth="= 1", MaxFrameOps="= 1", MaxTx="= 2"), emit=True)
+
+# ---- frame kinds beyond CALL / CREATE: DELEGATECALL, CALLCODE, STATICCALL, CREATE2 (+ write protection), with an ETX / a lockup
+# claim inside and every ending (STOP / REVERT / exceptional halt / SELFDESTRUCT / RETURN) of callee and caller
+xsmall = dict(small, EOAs="E1", Contracts="K2", InitBal="BalSmall12", InitWq="Wq12", InitLock="Lock12", TxKinds="TKCall", TxValues="V01", CallValues="V01",
+              MaxGasSteps="= 2", Prices="P1", Regimes="RG", OpKinds="OKEtxClaim", DestClasses="DElig", AmtClasses="AZeroMin", GlClasses="GOk",
+              FeeClasses="FOne", AlClasses="ALGood", FrameKinds="FKAll", CallTargets="CTK2F", TxTargets="TTK1", Benefs="BFK1", WpOps="WPAll",
+              MaxDepth="= 2", MaxFrameOps="= 1", GrindFail="= FALSE")
+xreal = dict(real, EOAs="E1", Contracts="K2", InitBal="BalReal12", InitWq="WqReal12", InitLock="Lock12", TxKinds="TKCall", Regimes="RG",
+             OpKinds="OKEtxClaim", DestClasses="DElig", AmtClasses="AZeroMin", GlClasses="GOk", FeeClasses="FOne", AlClasses="ALGood",
+             FrameKinds="FKAll", CallTargets="CTK2F", TxTargets="TTK1", Benefs="BFK1", WpOps="WPAll", MaxDepth="= 2", MaxFrameOps="= 1")
+cfg("MCEvmValue_xframes_small.cfg", xsmall, dict())
+cfg("MCEvmValue_xframes_big.cfg", xsmall, dict(MaxDepth="= 3", CallTargets="CTK", WpOps="WPSome", AmtClasses="AZero"))
+cfg("MCEvmValue_emit_xframes.cfg", xreal, dict(), emit=True)
+# thorough: three frames deep (delegate inside call inside static ...), two operations per frame at depth 2
+cfg("MCEvmValue_emit_xframes3.cfg", xreal, dict(MaxDepth="= 3", CallTargets="CTK", WpOps="WPSome", AmtClasses="AZero", TxValues="RV0"), emit=True)
+cfg("MCEvmValue_emit_xframes_ops2.cfg", xreal, dict(MaxFrameOps="= 2", FrameKinds="FKNew", CallTargets="CTK2F", WpOps="WPSome", AmtClasses="AZero",
+                                                    TxValues="RV0", CallValues="RV0", OpKinds="OKEtx"), emit=True)
+# ---- the same coinbase lockup claimed twice: in one transaction and in two transactions of one block (one block batch)
+cfg("MCEvmValue_emit_claim.cfg", real, dict(one1r, TxKinds="TKCall", TxValues="RV0", CallValues="RV0", Regimes="RBG", OpKinds="OKClaim", DestClasses="DElig",
+                                            AmtClasses="AZero", GlClasses="GOk", FeeClasses="FOne", AlClasses="ALGood", FrameKinds="FKCallOnly",
+                                            CallTargets="TTK1", TxTargets="TTK1", Benefs="BFK1F", MaxDepth="= 2", MaxFrameOps="= 2", MaxTx="= 2"), emit=True)
